@@ -222,6 +222,7 @@ static int drv_enum(vop_t *ops, int max)
         for (n = 0; n < 3; n++) for (f = 0; f < (FAULTS ? 3 : 1); f++) ADD(0, a, nms[n] < 0 ? MAXN : nms[n], 4, f);
         for (n = 0; n < 2; n++) { ADD(0, a, 1000 + n, 1, 0); ADD(0, a, 1000 + n, 4, 0); }
         ADD(0, a, 16, -60, 0); ADD(0, a, 2, -63, 0);
+        ADD(0, a, 1008, 1, 0); ADD(0, a, 1015, 1, 0); ADD(0, a, 1022, 1, 0);
         ADD(0, a, 2, 16, 0); if (MAXN != 2) ADD(0, a, MAXN, 16, 0);
         for (e = 1; e <= 2; e++) for (f = 0; f < (FAULTS ? 3 : 1); f++) ADD(1, a, e, 4, f);
         for (s = 1; s <= NA; s++) {
